@@ -1402,10 +1402,14 @@ class DiskRefsContainer(RefsContainer):
                 # may only be packed, or otherwise unstorable
                 found = False
 
+            # Remove the packed entry before the loose file, so that a crash
+            # (or a reader) in between sees the current value rather than a
+            # stale packed value coming back.
+            self._remove_packed_ref(name)
+
             if found:
                 os.remove(filename)
 
-            self._remove_packed_ref(name)
             self._log(
                 name,
                 old_ref,
@@ -1951,15 +1955,17 @@ class locked_ref:
         if not self._file:
             raise RuntimeError("locked_ref not in context")
 
-        # Delete the actual ref file while holding the lock
+        # Delete the actual ref file while holding the lock. The packed entry
+        # goes first, so that a crash in between never brings a stale packed
+        # value back.
         if self._realname:
             filename = self._refs_container.refpath(self._realname)
+            self._refs_container._remove_packed_ref(self._realname)
             try:
                 if os.path.lexists(filename):
                     os.remove(filename)
             except FileNotFoundError:
                 pass
-            self._refs_container._remove_packed_ref(self._realname)
 
         self._deleted = True
 
